@@ -1,0 +1,125 @@
+//go:build verif
+
+package decision
+
+// Verification hooks (add-only, compiled only with -tags verif): synchronous
+// stepping of the real nextEnvelope and read-only dumps of the peer ledger and
+// of the request queue topics. Nothing here changes engine behaviour.
+
+import (
+	"context"
+	"runtime"
+	"slices"
+	"strings"
+
+	wl "github.com/ipfs/boxo/bitswap/client/wantlist"
+	bsmsg "github.com/ipfs/boxo/bitswap/message"
+	pb "github.com/ipfs/boxo/bitswap/message/pb"
+	"github.com/ipfs/go-cid"
+	"github.com/ipfs/go-peertaskqueue/peertask"
+	"github.com/libp2p/go-libp2p/core/peer"
+)
+
+var verifClosed = func() chan struct{} { c := make(chan struct{}); close(c); return c }()
+
+// verifCtx never expires, except that the wait loop of nextEnvelope (and only
+// that caller) sees it as done when no task is pending: nextEnvelope then
+// returns instead of blocking for work.
+type verifCtx struct {
+	context.Context
+	e *Engine
+}
+
+func (c verifCtx) Done() <-chan struct{} {
+	var pcs [4]uintptr
+	n := runtime.Callers(2, pcs[:])
+	frames := runtime.CallersFrames(pcs[:n])
+	fr, _ := frames.Next()
+	if strings.HasSuffix(fr.Function, ".nextEnvelope") && c.e.peerRequestQueue.Stats().NumPending == 0 {
+		return verifClosed
+	}
+	return nil
+}
+
+func (c verifCtx) Err() error { return nil }
+
+// VerifNextEnvelope runs the real nextEnvelope once on the calling goroutine.
+// It returns nil when the request queue holds no pending task (where the task
+// worker would block waiting for work).
+func (e *Engine) VerifNextEnvelope() *Envelope {
+	env, _ := e.nextEnvelope(verifCtx{Context: context.Background(), e: e})
+	return env
+}
+
+// VerifEntry is a copy of a peer ledger entry.
+type VerifEntry struct {
+	Priority int32
+	WantType pb.Message_Wantlist_WantType
+}
+
+// VerifLedger returns deep copies of the two maps of the peer ledger.
+func (e *Engine) VerifLedger() (map[peer.ID]map[cid.Cid]VerifEntry, map[cid.Cid]map[peer.ID]VerifEntry) {
+	e.lock.RLock()
+	defer e.lock.RUnlock()
+	ps := make(map[peer.ID]map[cid.Cid]VerifEntry, len(e.peerLedger.peers))
+	for p, m := range e.peerLedger.peers {
+		mm := make(map[cid.Cid]VerifEntry, len(m))
+		for c, en := range m {
+			mm[c] = VerifEntry{en.Priority, en.WantType}
+		}
+		ps[p] = mm
+	}
+	cs := make(map[cid.Cid]map[peer.ID]VerifEntry, len(e.peerLedger.cids))
+	for c, m := range e.peerLedger.cids {
+		mm := make(map[peer.ID]VerifEntry, len(m))
+		for p, en := range m {
+			mm[p] = VerifEntry{en.Priority, en.WantType}
+		}
+		cs[c] = mm
+	}
+	return ps, cs
+}
+
+// VerifQueueTopics returns the pending and active topics (CIDs) queued for p.
+func (e *Engine) VerifQueueTopics(p peer.ID) (pending, active []cid.Cid) {
+	t := e.peerRequestQueue.PeerTopics(p)
+	if t == nil {
+		return nil, nil
+	}
+	conv := func(ts []peertask.Topic) []cid.Cid {
+		out := make([]cid.Cid, 0, len(ts))
+		for _, x := range ts {
+			out = append(out, x.(cid.Cid))
+		}
+		return out
+	}
+	return conv(t.Pending), conv(t.Active)
+}
+
+// VerifTieKey, when non-nil, fixes the order inside runs of equal priority of
+// the two sorted lists of handleOverflow. The real code leaves that order to
+// map iteration and an unstable sort, so every such order is a behaviour the
+// engine can show anyway; the harness picks one so that runs are reproducible.
+var VerifTieKey func(cid.Cid) int
+
+func verifOrderTies[T any](xs []T, prio func(T) int32, key func(T) cid.Cid) {
+	if VerifTieKey == nil {
+		return
+	}
+	for i := 0; i < len(xs); {
+		j := i + 1
+		for j < len(xs) && prio(xs[j]) == prio(xs[i]) {
+			j++
+		}
+		slices.SortStableFunc(xs[i:j], func(a, b T) int { return VerifTieKey(key(a)) - VerifTieKey(key(b)) })
+		i = j
+	}
+}
+
+func verifOrderTiesEntries(xs []bsmsg.Entry) {
+	verifOrderTies(xs, func(e bsmsg.Entry) int32 { return e.Priority }, func(e bsmsg.Entry) cid.Cid { return e.Cid })
+}
+
+func verifOrderTiesWants(xs []wl.Entry) {
+	verifOrderTies(xs, func(e wl.Entry) int32 { return e.Priority }, func(e wl.Entry) cid.Cid { return e.Cid })
+}
